@@ -244,6 +244,9 @@ def main():
             "nc " + "x (4294967294)._t._tcp.local.".encode().hex(), "hc " + "h-4294967295.local.".encode().hex(),
             "nc " + "x (+5).local.".encode().hex(), "hc " + "h-+3.local.".encode().hex(), "nc " + "x (9).local.".encode().hex(),
             "hc " + "h-99.local.".encode().hex()]
+    reg_file = os.path.join(VERIF, "tools", "registry", "regressions.cases")
+    if os.path.exists(reg_file):
+        hist_lines += [l for l in open(reg_file).read().split("\n") if l and not l.startswith("#")]
     for pid, lines in (("C07", hist_lines), ("C09", hist_lines), ("C08", comp + ["sim " + l for l in hist_lines])):
         with open(os.path.join(VERIF, "corpus", pid + ".cases"), "w") as f:
             f.write("# witness histories of tools/registry/gen_witnesses.py (see coq/Proofs/RegistryWitnesses.v)\n")
